@@ -351,6 +351,13 @@ def compare_with_cpython(ctx, w, tree, target, search_paths, inspection, dirs):
                 return ctx.fail("L-portions", f"{dotted}: namespace portions {file} not among CPython's {exp_dirs}", tags=tags)
         else:
             if file is not None and file.endswith(".pyi"):
+                if found is not None and found.origin and found.origin.endswith(".py"):
+                    # CPython imports a source module at that name: the stubs only accompany it (a merged module
+                    # keeps the runtime file), they cannot stand for it
+                    t = list(tags)
+                    if os.path.dirname(w.norm(found.origin)) != os.path.dirname(file):
+                        t.append("other-portion")
+                    return ctx.fail("L-stubs-instead-of-source", f"{dotted}: only the stubs {file} were loaded, CPython imports {w.norm(found.origin)}", tags=t)
                 ctx.probe("stub-only-module")
                 continue  # stub-only module (or stubs standing in for a compiled module)
             if found is None:
